@@ -292,6 +292,7 @@ mod udp {
                             let mut seen_pairs: HashSet<(usize, usize)> = HashSet::new();
                             acc.cases += 1;
                             let mut seed = 0u64;
+                            let mut last_growth: (usize, u64) = (0, 0);
                             loop {
                                 w.rng = rand::rngs::SmallRng::seed_from_u64(seed);
                                 seed += 1;
@@ -299,6 +300,7 @@ mod udp {
                                 let r = std::panic::catch_unwind(std::panic::AssertUnwindSafe(|| w.real_announce(0, 199, Kind::Stop5, 0, *nw, v4, vu)));
                                 acc.evals += 1;
                                 let case = json!({"tracker": "udp", "v4": v4, "permuted": permuted, "n": n, "max_response_peers": m, "numwant": nw, "requester": "absent", "seed": seed - 1});
+                                let case2 = case.clone();
                                 match r {
                                     Err(e) => {
                                         acc.run.violation("peerlist/udp/panic", format!("announce panicked: {} ({})", panic_message(&e), case), case);
@@ -310,7 +312,7 @@ mod udp {
                                     }
                                     Ok(Ok((_, _, peers, _))) => {
                                         if let Some(msg) = check_peer_list(&peers, &member_set, key_addr_n(v4, 199), limit, 1) {
-                                            acc.run.violation("peerlist/udp/rule", format!("{} ({})", msg, case), case);
+                                            acc.run.violation("peerlist/udp/rule", format!("{} ({})", msg, case), case.clone());
                                         }
                                         acc.outcomes.insert(fp64(&(peers.len(), limit, n.min(70), 2u8)));
                                         if need_pairs && !peers.is_empty() {
@@ -323,7 +325,19 @@ mod udp {
                                         }
                                     }
                                 }
-                                if !need_pairs || seen_pairs.len() >= target {
+                                // stop rule: the expected outcome space is covered AND no new outcome has shown up for a while
+                                // (a changed selection arithmetic has outcomes outside the expected space)
+                                if need_pairs {
+                                    if seen_pairs.len() > last_growth.0 {
+                                        last_growth = (seen_pairs.len(), seed);
+                                    }
+                                    if seen_pairs.len() >= target && seed - last_growth.1 >= (4 * target as u64 + 48) {
+                                        if seen_pairs.len() > target {
+                                            acc.run.violation("peerlist/udp/unexpected-offsets", format!("{} distinct (offset_one, offset_two) outcomes observed where the selection arithmetic allows {} ({})", seen_pairs.len(), target, case2), case2);
+                                        }
+                                        break;
+                                    }
+                                } else if seed >= 3 {
                                     break;
                                 }
                                 if seed > 400_000 {
